@@ -22,6 +22,19 @@ def count_occ(hay, needle):
     return n
 
 
+META = re.compile(r"\{>>.*?<<\}", re.S)
+
+
+def annot_hit(texts, target):
+    """does the target also occur inside annotation text of the raw view (change / comment metadata such as a comment
+    that happens to contain the same letters)? Such a target is not 'a piece of the document text occurring once':
+    the engine may find the annotation first."""
+    blocks = texts.get("_meta")
+    if blocks is None:
+        blocks = texts["_meta"] = META.findall(texts["raw"])
+    return any(target in b for b in blocks)
+
+
 def ws_norm(s):
     return WS.sub(" ", s)
 
@@ -89,6 +102,8 @@ def pick_target(rng, pv, texts, tries=12, min_len=2, max_len=18, states=("plain"
         cr, cc = count_occ(texts["raw"], target), count_occ(texts["clean"], target)
         if cc != 1 or cr > 1:
             continue
+        if annot_hit(texts, target):
+            continue
         if count_occ(ws_norm(texts["clean"]), ws_norm(target)) != 1 or count_occ(ws_norm(texts["raw"]), ws_norm(target)) > 1:
             continue
         if count_occ(fuzzy_norm(texts["clean"]), fuzzy_norm(target)) != 1:
@@ -131,6 +146,8 @@ def pick_cross_ins(rng, pv, texts):
         if not target.strip() or target != target.strip():
             continue
         if count_occ(texts["clean"], target) != 1 or count_occ(texts["raw"], target) > 1:
+            continue
+        if annot_hit(texts, target):
             continue
         if count_occ(ws_norm(texts["clean"]), ws_norm(target)) != 1 or count_occ(fuzzy_norm(texts["clean"]), fuzzy_norm(target)) != 1:
             continue
@@ -244,6 +261,8 @@ def gen_block_prefix_edit(rng, doc, texts):
             continue
         if count_occ(texts["clean"], target) != 1 or count_occ(texts["raw"], target) != 1:
             continue
+        if annot_hit(texts, target):
+            continue
         if count_occ(fuzzy_norm(texts["clean"]), fuzzy_norm(target)) != 1:
             continue
         w = word()
@@ -336,6 +355,8 @@ def gen_marked_edit(rng, doc, texts, avoid_pi=()):
             target = lead + pre + txt + suf
             real = lead + txt
             if count_occ(texts["clean"], target) != 1 or count_occ(texts["raw"], target) != 1:
+                continue
+            if annot_hit(texts, target):
                 continue
             if count_occ(fuzzy_norm(texts["clean"]), fuzzy_norm(target)) != 1:
                 continue
@@ -478,6 +499,8 @@ def _range_edit(rng, pv, texts, a, b, word, kind=None):
     if not target.strip():
         return None
     if count_occ(texts["clean"], target) != 1 or count_occ(texts["raw"], target) > 1:
+        return None
+    if annot_hit(texts, target):
         return None
     if count_occ(ws_norm(texts["clean"]), ws_norm(target)) != 1 or count_occ(ws_norm(texts["raw"]), ws_norm(target)) > 1:
         return None
